@@ -141,17 +141,58 @@ class VClosure:
         return f"VClosure({self.name})"
 
 
+class VBytes:
+    """byte string built by concatenation (Vec<u8> message buffers, hasher input): chunks are either known bytes
+    ('b', bit-vector of 8k bits) or opaque blobs ('o', identity bit-vector, byte length).  Equality = chunkwise equality
+    (length-prefixed canonical encodings; hash functions are treated as collision-free)."""
+    __slots__ = ("chunks",)
+
+    def __init__(self, chunks):
+        self.chunks = tuple(chunks)
+
+    def __repr__(self):
+        return f"VBytes({len(self.chunks)} chunks)"
+
+
+class VBlob:
+    """opaque byte string (key material, signature, utf-8 of an abstract string, serializer output): identity + length"""
+    __slots__ = ("id", "len")
+
+    def __init__(self, id_, length):
+        self.id = id_
+        self.len = length
+
+    def __repr__(self):
+        return "VBlob"
+
+
+class VCoroutine:
+    """state machine of an `async fn` / async block: captured upvars, resume-state discriminant, saved locals per suspend state"""
+    __slots__ = ("name", "creator", "caps", "idx", "variants")
+
+    def __init__(self, name, creator, caps, idx, variants):
+        self.name = name
+        self.creator = creator  # MIR item that built it: its body is `<creator>::{closure#0}`
+        self.caps = tuple(caps)
+        self.idx = idx  # z3 BV32
+        self.variants = dict(variants)  # state number -> tuple of saved values (None = not written yet)
+
+    def __repr__(self):
+        return f"VCoroutine({self.creator})"
+
+
 class VMap:
     """key -> value map as 'struct of arrays': `present` is Array(K, Bool); `val` is a value tree whose scalar leaves
     are z3 Arrays K -> leaf sort; `count` is a ghost BV64 number of present keys."""
-    __slots__ = ("ksort", "present", "val", "count", "cap")
+    __slots__ = ("ksort", "present", "val", "count", "cap", "enum")
 
-    def __init__(self, ksort, present, val, count, cap=None):
+    def __init__(self, ksort, present, val, count, cap=None, enum=None):
         self.ksort = ksort
         self.present = present
         self.val = val
         self.count = count
         self.cap = cap
+        self.enum = enum  # optional tuple of (key bit-vector, key value): the ONLY keys that can be present (finite map: iteration is modelled)
 
     def __repr__(self):
         return f"VMap({self.ksort})"
@@ -224,6 +265,12 @@ def vmap(v, f):
         return VStr(f(v.id), None)
     if isinstance(v, VClosure):
         return VClosure(v.name, [vmap(x, f) for x in v.caps])
+    if isinstance(v, VBlob):
+        return VBlob(f(v.id), f(v.len))
+    if isinstance(v, VBytes):
+        return VBytes([("b", f(c[1])) if c[0] == "b" else ("o", f(c[1]), f(c[2])) for c in v.chunks])
+    if isinstance(v, VCoroutine):
+        return VCoroutine(v.name, v.creator, [vmap(x, f) for x in v.caps], f(v.idx), {k: tuple(vmap(x, f) for x in p) for k, p in v.variants.items()})
     if isinstance(v, (VOpaque, VFn, VPoison)) or v is None:
         return v
     raise SymError(f"vmap: unsupported value {v!r}")
@@ -310,11 +357,31 @@ def merge(g, a, b):
             return a
         return VStr(merge(g, a.id, b.id))
     if isinstance(a, VMap):
-        return VMap(a.ksort, merge(g, a.present, b.present), merge(g, a.val, b.val), merge(g, a.count, b.count), a.cap)
+        return VMap(a.ksort, merge(g, a.present, b.present), merge(g, a.val, b.val), merge(g, a.count, b.count), a.cap, a.enum if a.enum is not None else b.enum)
     if isinstance(a, VClosure):
         if a.name != b.name:
             return VPoison("merge of different closures")
         return VClosure(a.name, [merge(g, x, y) for x, y in zip(a.caps, b.caps)])
+    if isinstance(a, VBlob):
+        return VBlob(merge(g, a.id, b.id), merge(g, a.len, b.len))
+    if isinstance(a, VBytes):
+        if len(a.chunks) != len(b.chunks) or any(x[0] != y[0] or x[1].sort() != y[1].sort() for x, y in zip(a.chunks, b.chunks)):
+            return VPoison("merge of differently shaped byte strings")
+        return VBytes([("b", merge(g, x[1], y[1])) if x[0] == "b" else ("o", merge(g, x[1], y[1]), merge(g, x[2], y[2])) for x, y in zip(a.chunks, b.chunks)])
+    if isinstance(a, VCoroutine):
+        if a.name != b.name:
+            return VPoison("merge of different coroutines")
+        vs = {}
+        for k in set(a.variants) | set(b.variants):
+            pa, pb = a.variants.get(k), b.variants.get(k)
+            if pa is None or pb is None:
+                vs[k] = pa if pb is None else pb
+            else:
+                n = max(len(pa), len(pb))
+                pa = tuple(pa) + (None,) * (n - len(pa))
+                pb = tuple(pb) + (None,) * (n - len(pb))
+                vs[k] = tuple((x if y is None else y if x is None else merge(g, x, y)) for x, y in zip(pa, pb))
+        return VCoroutine(a.name, a.creator, [merge(g, x, y) for x, y in zip(a.caps, b.caps)], merge(g, a.idx, b.idx), vs)
     if isinstance(a, VIter):
         if a.kind != b.kind or set(a.a) != set(b.a):
             return VPoison("merge of different iterators")
@@ -362,6 +429,18 @@ def flatten(v, out=None):
     elif isinstance(v, VStr):
         out.append(v.id)
     elif isinstance(v, VClosure):
+        for x in v.caps:
+            flatten(x, out)
+    elif isinstance(v, VBlob):
+        out.append(v.id)
+        out.append(v.len)
+    elif isinstance(v, VBytes):
+        for c in v.chunks:
+            out.append(c[1])
+            if c[0] == "o":
+                out.append(c[2])
+    elif isinstance(v, VCoroutine):
+        out.append(v.idx)
         for x in v.caps:
             flatten(x, out)
     return out
